@@ -729,7 +729,7 @@ func summarizePurge(c *core.Ctx, f *core.Func) *purgeSummary {
 					}
 					// indexed by the id of a column's / relation's target
 					byTarget := false
-					if isel, ok := ast.Unparen(m.StripConv(ix.Index)).(*ast.SelectorExpr); ok && fieldKeyOf(m, isel) == "Entity.id" {
+					if isel, ok := ast.Unparen(m.StripConv(m.Inline(m.StripConv(ix.Index)))).(*ast.SelectorExpr); ok && fieldKeyOf(m, isel) == "Entity.id" {
 						for _, e := range exprChain(m, f, isel.X, 0) {
 							switch fieldKeyOf(m, e) {
 							case "column.target", "relationID.target":
